@@ -12,17 +12,17 @@ from tables import refgroups as RG
 PID = "C07"
 
 
-def conc_sets(sg, occs_list, vals_list, orders=None):
+def conc_sets(sg, occs_list, vals_list, orders=None, supercell=False):
     """two replay levels: (1) real spglib on the concrete crystals; (2) real analyzer/numpy/ASE with spglib's dataset
     scripted as the contract dataset of the symbolic path (another legitimate origin choice of the same crystal)"""
-    msgs = conc_sets_real(sg, occs_list, vals_list, orders)
+    msgs = conc_sets_real(sg, occs_list, vals_list, orders, supercell)
     if msgs:
         return msgs
-    return ["[spglib dataset scripted] " + m for m in conc_sets_scripted(sg, occs_list, vals_list, orders)]
+    return ["[spglib dataset scripted] " + m for m in conc_sets_scripted(sg, occs_list, vals_list, orders, supercell)]
 
 
-def conc_sets_scripted(sg, occs_list, vals_list, orders=None):
-    dss = [S.concrete_dataset(sg, occ, vals, order=(orders[k] if orders else None)) for k, (occ, vals) in enumerate(zip(occs_list, vals_list))]
+def conc_sets_scripted(sg, occs_list, vals_list, orders=None, supercell=False):
+    dss = [S.concrete_dataset(sg, occ, vals, order=(orders[k] if orders else None), orig_supercell=supercell) for k, (occ, vals) in enumerate(zip(occs_list, vals_list))]
     ses = S.RealSession(dss)
     msgs = []
     with ses.active():
@@ -70,7 +70,7 @@ def check_sets_numeric(sg, k, conv, sets, letters):
     return msgs
 
 
-def conc_sets_real(sg, occs_list, vals_list, orders=None):
+def conc_sets_real(sg, occs_list, vals_list, orders=None, supercell=False):
     """real analyzer (one instance, consecutive set_system calls), real spglib; the statement evaluated numerically with
     spglib.get_symmetry on the returned structure as the independent source of operations"""
     from ase import Atoms
@@ -87,6 +87,9 @@ def conc_sets_real(sg, occs_list, vals_list, orders=None):
             pos = [pos[i] for i in orders[k]]
             nums = [nums[i] for i in orders[k]]
         at = Atoms(numbers=nums, scaled_positions=pos, cell=np.array(S.std_lattice(sg), dtype=float), pbc=True)
+        if supercell:
+            at = at.repeat((2, 1, 1))
+            at = at[S.supercell_perm(len(at) // 2, supercell)]
         try:
             if an is None:
                 an = SA.SymmetryAnalyzer(at, symmetry_tol=1e-4)
@@ -134,6 +137,12 @@ def conc_sets_real(sg, occs_list, vals_list, orders=None):
 def make_fn(sg, occs, reuse, supercell=False):
     def fn(e):
         occ = e.pick(occs)
+        if supercell:
+            supercell_ = e.pick([True, "interleaved"])
+            return body(e, occ, supercell_)
+        return body(e, occ, False)
+
+    def body(e, occ, supercell):
         dss = [S.make_dataset(e, sg, occ, tag="A", orig_supercell=supercell)]
         orders = [None]
         if reuse:
@@ -161,9 +170,9 @@ def make_fn(sg, occs, reuse, supercell=False):
         def cex(env):
             occs_l = [d["_occupation"] for d in dss]
             vals_l = [[[float(S.concrete(np.array([x], dtype=object), env)[0]) if isinstance(x, SReal) else float(x) for x in p] for p in d["_params"]] for d in dss]
-            msgs = conc_sets(sg, occs_l, vals_l, orders)
+            msgs = conc_sets(sg, occs_l, vals_l, orders, supercell)
             return {"key": f"H07:sg{sg}:{cex.label}", "what": f"space group {sg}, occupations {occs_l}: " + "; ".join(msgs[:4]),
-                    "replay": {"kind": "sets", "sg": sg, "occupations": [[list(o) for o in oc] for oc in occs_l], "params": vals_l, "orders": orders}, "reproduced": bool(msgs)}
+                    "replay": {"kind": "sets", "sg": sg, "occupations": [[list(o) for o in oc] for oc in occs_l], "params": vals_l, "orders": orders, "supercell": supercell}, "reproduced": bool(msgs)}
 
         def mk(label):
             def c(env):
@@ -196,6 +205,16 @@ def make_fn(sg, occs, reuse, supercell=False):
             e.post(tag + "letters are those an independent assignment gives to the returned positions", got == want, mk("letters"))
             # orbit closure under the Hall-database operations
             f = conv.get_scaled_positions(wrap=False)
+            if len(f) == n:
+                # the returned atoms are the chosen rigid motion (the one the letters were permuted for) of the standardized atoms
+                Pm_ = [list(r[:3]) for r in key[:3]]
+                t_ = [r[3] for r in key[:3]]
+                pc = []
+                for i in range(n):
+                    for c in range(3):
+                        dd = f[i][c] - (sum(ds.std_positions[i][k2] * Pm_[c][k2] for k2 in range(3)) + t_[c])
+                        pc.append(z3.IsInt(dd.z3()) if not dd.is_const() else z3.BoolVal(dd.cval().denominator == 1))
+                e.post(tag + "returned positions = the rigid motion the letters were permuted for, applied to the standardized atoms (mod lattice)", z3.And(*pc), mk("positions"))
             conds = []
             closed = True
             for s in sets:
@@ -249,7 +268,9 @@ def run_group(arg):
     st2 = explore(make_fn(sg, occ1, True), f"H07r:sg{sg}", workers=1, timeout_ms=20000, budget_s=3000)
     # the analysed system given as a 2x1x1 supercell of the standardized cell (per-atom spglib arrays doubled, equivalent_atoms a
     # proper refinement of the crystallographic orbits)
-    st3 = explore(make_fn(sg, S.occupations(sg, 1, S.ELEMENTS)[: (8 if tier == "quick" else 27)], False, True), f"H07s:sg{sg}", workers=1, timeout_ms=20000, budget_s=3000)
+    occ_s = S.occupations(sg, 1, S.ELEMENTS)[: (6 if tier == "quick" else 27)]
+    occ_s = occ_s + [o for o in S.occupations(sg, 2, S.ELEMENTS) if len(o) == 2 and o[0][0] != o[1][0]][: (3 if tier == "quick" else 12)]
+    st3 = explore(make_fn(sg, occ_s, False, True), f"H07s:sg{sg}", workers=1, timeout_ms=20000, budget_s=3000)
     for k in ("paths", "forks", "obligations", "discharged", "validated", "solver_s", "wall_s"):
         st2[k] += st3[k]
     for k in ("unsat", "sat", "unknown"):
@@ -280,7 +301,7 @@ def main(tier, seed, only=None):
         rep.require_reached("H07:single", "H07:reuse", "H07:supercell-input")
     rep.bounds = {"space_groups": len(groups), "occupations": nocc,
                   "orbits": "quick: <= 2 orbits for groups with <= 14 Wyckoff letters, 1 otherwise; thorough: <= 3 orbits for groups with <= 8 letters, 2 otherwise",
-                  "supercell input": "the analysed system as the 2x1x1 supercell of the standardized cell, single-orbit occupations (8 per group quick, all thorough)",
+                  "supercell input": "the analysed system as the 2x1x1 supercell of the standardized cell, atoms listed cell by cell or with the two copies of every atom interleaved; 6 single-orbit + 3 two-letter occupations per group (quick), 27 + 12 (thorough); equivalent_atoms = finest admissible partition",
                   "reuse": "one analyzer, two systems (second with reversed atom order): ordered pairs of up to 8 occupations per group (quick), 14 (thorough)"}
     rep.stubs = ["SpglibContract dataset from the Hall-database orbits (letters, crystallographic_orbits, mapping_to_primitive, std_mapping_to_primitive consistent as documented)",
                  "StubAtoms / StubSystem", "letter oracle: row of the table containing the transformed representative (LIRA existential, rows validated by C14)"]
@@ -290,5 +311,5 @@ def main(tier, seed, only=None):
 
 
 def replay(d):
-    msgs = conc_sets(d["sg"], [[tuple(o) for o in oc] for oc in d["occupations"]], d["params"], d.get("orders"))
+    msgs = conc_sets(d["sg"], [[tuple(o) for o in oc] for oc in d["occupations"]], d["params"], d.get("orders"), d.get("supercell", False))
     return bool(msgs), "; ".join(msgs[:6]) or "ok"
